@@ -293,7 +293,7 @@ Section ImportTop.
     destruct (package_scope_base _ _ _ _ _ Hscope) as [Hb Hpd].
     destruct (Hi _ _ _ Hpd Him) as [Hnn' Hsc].
     assert (Hhs : shape_hash_slash x = false).
-    { unfold in_scope_imports in Hsc. apply andb_true_iff in Hsc as [Hsc _]. apply andb_true_iff in Hsc as [Hsc _].
+    { unfold in_scope_imports in Hsc. apply andb_true_iff in Hsc as [Hsc _].
       apply andb_true_iff in Hsc as [_ Hs]. apply negb_true_iff in Hs. exact Hs. }
     unfold resolve, import_resolve. rewrite Hpp, Hbx.
     unfold is_package_path in Hpp.
@@ -307,12 +307,12 @@ Section ImportTop.
     (* loadPackageImports vs PACKAGE_IMPORTS_RESOLVE + RESOLVE_ESM_MATCH *)
     unfold load_package_imports.
     assert (Hh1 : str_eqb x [ch_hash] = false) by (apply orb_false_iff in Hhs as [H _]; exact H).
-    rewrite Hh1, (parse_root_some im Hnn').
+    rewrite Hh1, (parse_root_imports_some im Hnn').
     pose proof (imports_resolve_eq_partial_all im x (conds_of KImport user) Hsc) as Heq.
     pose proof (imports_resolve_no_inexact im x (conds_of KImport user) Hsc) as Hni.
     rewrite (node_imports_resolve_ext _ _ im x (conds_import_equiv user)) in Heq.
     pose proof (fun s => Hr _ _ _ s Hpd Him) as Hrm.
-    destruct (imports_resolve x (parse_top im) (conds_of KImport user)) as [res st].
+    destruct (imports_resolve x (parse im) (conds_of KImport user)) as [res st].
     destruct (node_imports_resolve x im (esm_conds user)) as [u|s|e|]; cbn [coarse] in *.
     - assert (Hst : res = u /\ (st = SExact \/ st = SExactEndsWithStar)).
       { unfold outcome_of_model in Heq. cbn [fst snd] in *.
